@@ -369,6 +369,64 @@ def f(a):
 ''', ['f(0)', 'f(1)'], expect_inlined=False)
 
 
+case('loop over a tuple of variables is unrolled (and stays equivalent)', '''
+def f(a, b, c):
+    out = []
+    for x in (a, b, c):
+        if x is None:
+            continue
+        out.append(x * 2)
+    total = 0
+    for y in (a, b):
+        if y:
+            total += y
+        else:
+            break
+    return out, total
+''', ['f(1, None, 3)', 'f(0, 5, 1)', 'f(2, 3, None)'], expect_inlined=False)
+
+case('local closure called after its definition', '''
+def f(items):
+    seen = {}
+    def reg(k, v):
+        seen.setdefault(k, []).append(v)
+        return len(seen[k])
+    n = 0
+    for k, v in items:
+        n += reg(k, v)
+    reg('z', 0)
+    return seen, n
+''', ['f([("a", 1), ("a", 2), ("b", 3)])'])
+
+case('closure passed as a value is not inlined', '''
+def f(xs):
+    def key(x):
+        return -x
+    return sorted(xs, key=key)
+''', ['f([1, 3, 2])'], expect_inlined=False)
+
+case('closure whose local clashes with the enclosing function', '''
+def f(a):
+    t = 100
+    def h(x):
+        t = x + 1
+        return t * 2
+    r = h(a)
+    return t, r
+''', ['f(1)'])
+
+case('closure reading an enclosing variable that changes between calls', '''
+def f():
+    base = 1
+    def add(x):
+        return base + x
+    a = add(1)
+    base = 10
+    b = add(1)
+    return a, b
+''', ['f()'])
+
+
 def run_case(name, src, calls, expect_inlined):
     tree = ast.parse(src)
     normalize._ANCHORS = set()      # nothing is an anchor in these toy modules
@@ -401,8 +459,9 @@ def run_case(name, src, calls, expect_inlined):
     if expect_inlined:
         # the caller f must not call a private helper any more
         f = [s for s in new.body if isinstance(s, ast.FunctionDef) and s.name == 'f']
+        local_defs = set(d.name for s in f for d in ast.walk(s) if isinstance(d, ast.FunctionDef) and d is not s)
         left = [c.func.id for s in f for c in ast.walk(s) if isinstance(c, ast.Call) and isinstance(c.func, ast.Name)
-                and c.func.id.startswith('_') and c.func.id not in ('_noisy2',)]
+                and (c.func.id.startswith('_') or c.func.id in local_defs) and c.func.id not in ('_noisy2',)]
         if left:
             return 'helper calls left in f: %s\n%s' % (left, out)
     return None
